@@ -312,6 +312,40 @@ def generate(tier):
         ext=sc_ext.format(macro="gc_arena::static_collect!(<T> H2<T> where T: Clone);", inst="u32", holds="false"))
     for name, (body, items) in fixed.items():
         add(f"fixed/{name}", body.replace("{m}", "m"), "reject_or_run", group="fixed", items=items)
+    # D4 family seen from C13: a root type that is only well-formed if 'gc: 'static hands the callback the implied bound,
+    # under which every `T: 'static` guard of the barrier API is satisfiable for branded data (known finding, same root cause as C12's)
+    IMPLIED = '''#![forbid(unsafe_code)]
+#![allow(unused)]
+use std::cell::RefCell;
+use std::marker::PhantomData;
+use std::sync::atomic::{AtomicBool, Ordering::SeqCst};
+use gc_arena::{Arena, Collect, Gc, RefLock, Rootable, barrier::Write};
+static DROPPED: AtomicBool = AtomicBool::new(false);
+#[derive(Collect)]
+#[collect(require_static)]
+struct Payload(u32);
+impl Drop for Payload { fn drop(&mut self) { DROPPED.store(true, SeqCst); } }
+%s
+fn main() {
+    let mut arena = Arena::<Rootable![Root<'_>]>::new(|mc| %s);
+    arena.finish_marking();
+    arena.mutate(|mc, root| { %s });
+    arena.finish_cycle();
+    if DROPPED.load(SeqCst) { println!("C01 violated: the payload is reachable from the root but was destructed"); std::process::exit(3); }
+}
+'''
+    implied = {
+        "from_static": ("type Root<'gc> = (Gc<'gc, RefLock<Option<Gc<'gc, Payload>>>>, PhantomData<&'static Gc<'gc, ()>>);",
+                        "(Gc::new(mc, RefLock::new(None)), PhantomData)",
+                        "*Write::from_static(root.0.as_ref()).unlock().borrow_mut() = Some(Gc::new(mc, Payload(4)));"),
+        "static_ref_refcell": ("type Root<'gc> = (Gc<'gc, &'static RefCell<Option<Gc<'gc, Payload>>>>, PhantomData<&'static Gc<'gc, ()>>);",
+                               "(Gc::new(mc, &*Box::leak(Box::new(RefCell::new(None)))), PhantomData)",
+                               "*root.0.borrow_mut() = Some(Gc::new(mc, Payload(4)));"),
+    }
+    for name, (ty, init, body) in implied.items():
+        ps.append(Probe(f"implied-static/{name}", IMPLIED % (ty, init, body), "known", group="implied-static", known_key=f"C13/implied-static/{name}"))
+    # control: the same programs with an ordinary root are rejected
+    ps.append(Probe("implied-static/from_static/ordinary_root_control", IMPLIED % ("type Root<'gc> = (Gc<'gc, RefLock<Option<Gc<'gc, Payload>>>>, PhantomData<&'gc ()>);", implied["from_static"][1], implied["from_static"][2]), "reject", group="implied-static"))
     # user-defined index types on library containers that go through a Gc dereference (index into the container, deref the Gc element)
     via = {
         "vec": ("Vec<Gc<'gc, Lk<'gc>>>", "vecgc", "&*self[0usize]"),
